@@ -266,7 +266,7 @@ var locAllowed = map[string][]string{
 	"umount2": {"pivot_root", "umount"}, "unlinkat": {"pivot_root", "unlink"}, "prlimit64": {"setrlimt"}, "capset": {"set_cap"},
 	"ptrace": {"ptrace_me"}, "kill": {"stop"}, "seccomp": {"seccomp"}, "execve": {"execve"}, "execveat": {"execve"},
 	"sethostname": {"sethostname"}, "setdomainname": {"setdomainname"},
-	"prctl": {"keep_capability", "drop_capability", "set_no_new_privs"}, "read": {"unshare_user_read", "sync_read"}, "write": {"sync_write"},
+	"prctl": {"keep_capability", "drop_capability", "set_no_new_privs", "ptrace_me"}, "read": {"unshare_user_read", "sync_read"}, "write": {"sync_write"},
 }
 
 // s2CheckFailure evaluates the C07 oracle on a run in which a step failed (injected or natural).
